@@ -67,7 +67,7 @@ def cmp_dispatch(sess, R, M, params=False, chains=False, setup=False, urls=False
         if chains and (r.get("chains", "1") != "1" or r.get("ran", "1") != "1"):
             bad.append(i)
             continue
-        if params:
+        if params or op.startswith("IREQ "):
             ok = all(r["params"].get(k, "<none>") == v for k, v in m["params"].items())
             ok = ok and r.get("route") == m.get("route")
             if r.get("u0") == NA:      # the route could not be named (registration panicked half-way): nothing to rebuild
@@ -86,7 +86,7 @@ def router_stats(nontrivial_req, rule):
     def f(lines, sessions, R, M):
         seen = set()
         nt = 0
-        dist = {"req": 0, "dispatched": 0, "notfound": 0, "add_ok": 0, "add_err": 0, "hdr": 0, "url": 0, "treq": 0,
+        dist = {"req": 0, "dispatched": 0, "notfound": 0, "add_ok": 0, "add_err": 0, "hdr": 0, "url": 0, "treq": 0, "ireq": 0,
                 "static_kind": 0, "regex_kind": 0, "hole_kind": 0, "all_kind": 0, "optional": 0}
         samples = []
         for (a, b) in sessions:
@@ -110,7 +110,7 @@ def router_stats(nontrivial_req, rule):
                 elif op.startswith("URL "):
                     dist["url"] += 1
                 elif _is_req(op):
-                    dist["treq" if op.startswith("T") else "req"] += 1
+                    dist["ireq" if op.startswith("I") else "treq" if op.startswith("T") else "req"] += 1
                     h = R[i].startswith("h ")
                     dist["dispatched" if h else "notfound"] += 1
                     key = hashlib.sha1(("|".join(routes) + "#" + op).encode()).hexdigest()
